@@ -61,6 +61,8 @@ fn native_misc_registry0() -> Vec<(&'static str, fn(&mut crate::src::EnumSrc))> 
         ("nledger_files", (|s: &mut crate::src::EnumSrc| crate::native_abi::ledger_files(s)) as fn(&mut crate::src::EnumSrc)),
         // n(nmal_library, "C06", "Deserialize for String, Vec<T>, HashMap, BTreeMap, Option, VecDeque, BinaryHeap, BTreeSet, HashSet, Box<[T]>, Arc<[T]>, Arc<str>, ArrayVec, SmallVec, BitVec, tuples, char, bool, Result, IndexMap, IndexSet, IpAddr, Duration; Deserializer::read_string; regular_deserialize_vec", "24 valid encodings of small values, each with: every single-byte replacement by one of 6 values (length-like 8-byte fields: low byte only, 5 values), every truncation, 1-2 appended bytes");
         ("nmal_library", (|s: &mut crate::src::EnumSrc| crate::native_misc::malformed_library(s)) as fn(&mut crate::src::EnumSrc)),
+        // n(nmal_bitvec, "C06", "<bit_vec::BitVec as Deserialize>::deserialize", "declared bit counts from the small u64 domain over a 4-byte storage");
+        ("nmal_bitvec", (|s: &mut crate::src::EnumSrc| crate::collections::mal_bitvec_len(s)) as fn(&mut crate::src::EnumSrc)),
         // n(pairs_diff, "C05,C13,C15", "diff_schema; diff_enum; diff_fields; diff_primitive", "pairs of one-variant enums with <= 2 primitive fields; discriminants/widths from small domains");
         ("pairs_diff", (|s: &mut crate::src::EnumSrc| crate::schemapairs::diff_pairs(s)) as fn(&mut crate::src::EnumSrc)),
         // n(pairs_layout, "C11", "Schema::layout_compatible; SchemaEnum/Variant/Field::layout_compatible", "pairs of one-variant enums with <= 2 primitive fields, two offsets");
